@@ -49,6 +49,8 @@ type step struct {
 	Lo    int     `json:"lo"`
 	Hi    int     `json:"hi"`
 	Crash string  `json:"crash"`
+	Keep  bool    `json:"keep"` // the crash is followed by a reader-level reopen: a stale .tombstone.tmp stays
+	Err   bool    `json:"err"`  // the transcription says the call fails (stale temp file, O_EXCL) and changes nothing
 	Exp   obs     `json:"exp"`
 	New   [][]int `json:"new"`
 }
@@ -217,8 +219,14 @@ func engineCleanup(dir string) {
 	}
 }
 
-func openReader(dir string) (*tsm1.TSMReader, error) {
-	engineCleanup(dir)
+func openReader(dir string) (*tsm1.TSMReader, error) { return openReaderMode(dir, true) }
+
+// openReaderMode: cleanup = engine restart (Engine.cleanupTempTSMFiles is the only code that removes .tombstone.tmp);
+// !cleanup = only the TSMReader/Tombstoner is reopened (FileStore.Open, tooling), stale temp files stay
+func openReaderMode(dir string, cleanup bool) (*tsm1.TSMReader, error) {
+	if cleanup {
+		engineCleanup(dir)
+	}
 	f, err := os.Open(filepath.Join(dir, tsmName))
 	if err != nil {
 		return nil, err
@@ -387,6 +395,16 @@ func (ck *checker) compareObs(r *tsm1.TSMReader, exp *obs, stepNo int, what stri
 		}
 		if ct != exp.Contains[k-1] {
 			contOK = false
+		}
+		// Type(key) answers exactly for the keys the index contains (absent keys between present ones, fully tombstoned keys)
+		typ, terr := r.Type(c.keys[k])
+		if (terr == nil) != ct {
+			res := rt.Fail(stepNo, fmt.Sprintf("%s: Type(key %d) err=%v but Contains=%v", what, k, terr, ct), fmt.Sprint(typ, terr), ct)
+			return &res
+		}
+		if terr == nil && typ != c.typ(k%5) {
+			res := rt.Fail(stepNo, fmt.Sprintf("%s: Type(key %d)", what, k), typ, c.typ(k%5))
+			return &res
 		}
 		if !ct && len(exp.Visible[k-1]) > 0 {
 			res := rt.Fail(stepNo, fmt.Sprintf("%s: Contains(key %d) is false although points are visible", what, k), gotCont, exp.Contains)
@@ -624,10 +642,14 @@ func shortPoint(p string) string { return p[strings.LastIndex(p, ".")+1:] }
 
 // reopenVisible materialises an image, reopens it the way the engine does and returns the visible content.
 func (ck *checker) reopenVisible(img image, dir string) ([][]int, error) {
+	return ck.reopenVisibleMode(img, dir, true)
+}
+
+func (ck *checker) reopenVisibleMode(img image, dir string, cleanup bool) ([][]int, error) {
 	if err := materialize(img, dir); err != nil {
 		return nil, fmt.Errorf("infra: %w", err)
 	}
-	r, err := openReader(dir)
+	r, err := openReaderMode(dir, cleanup)
 	if err != nil {
 		return nil, err
 	}
@@ -672,7 +694,7 @@ func runTomb(tc *tcase, raw []byte, env *rt.Env) rt.Result {
 		return *ck.pending
 	}
 	old := tc.Init.Visible
-	crashes, recorded := 0, 0
+	crashes, recorded, refused, stale := 0, 0, 0, 0
 	for i, s := range tc.Steps {
 		switch s.A {
 		case "reopen":
@@ -707,12 +729,34 @@ func runTomb(tc *tcase, raw []byte, env *rt.Env) rt.Result {
 				derr = r.DeleteRange(keys, c.t(s.Lo), c.t(s.Hi))
 			}
 			tsm1.VerifSetHook(nil)
-			if derr != nil {
-				return rt.Fail(i, fmt.Sprintf("%s returned an error: %v", s.A, derr), derr.Error(), nil)
-			}
 			after := snapshot(dir)
+			want := s.New // what a reopen must show once the call is acknowledged
+			if derr != nil {
+				// a refused delete is not acknowledged: nothing may change, and the file must stay readable
+				for _, cleanup := range []bool{true, false} {
+					vis, err := ck.reopenVisibleMode(after, imgDir, cleanup)
+					if err != nil {
+						return rt.Fail(i, fmt.Sprintf("%s failed (%v) and the directory no longer reopens (cleanup=%v): %v", s.A, derr, cleanup, err), err.Error(), nil)
+					}
+					if !eqInts2(vis, old) {
+						return rt.Fail(i, fmt.Sprintf("%s failed (%v) but a reopen (cleanup=%v) does not show the old tombstone set", s.A, derr, cleanup), vis, old)
+					}
+				}
+				if !s.Err {
+					return rt.Fail(i, fmt.Sprintf("%s returned an error: %v", s.A, derr), derr.Error(), nil)
+				}
+				refused++
+				break
+			}
+			diverged := false
+			if s.Err {
+				// legal: the code may re-use / replace a stale temp file.  The acknowledged delete must then be durable and the
+				// directory readable (checked below); the rest of the history no longer matches the transcription.
+				ck.drift["delete_succeeded_where_transcription_refuses_stale_tmp"] = true
+				diverged = true
+			}
 			for n := range after {
-				if strings.HasSuffix(n, "."+tsm1.CompactionTempExtension) {
+				if _, stale := before[n]; !stale && strings.HasSuffix(n, "."+tsm1.CompactionTempExtension) {
 					return rt.Fail(i, "a temporary file is left behind after an acknowledged delete: "+n, n, nil)
 				}
 			}
@@ -720,17 +764,27 @@ func runTomb(tc *tcase, raw []byte, env *rt.Env) rt.Result {
 				recorded++
 			}
 			// the acknowledged state must already be durable: a crash right after the call returns shows the new set
-			vis, err := ck.reopenVisible(after, imgDir)
-			if err != nil {
-				return rt.Fail(i, "image taken after the acknowledged delete does not reopen: "+err.Error(), err.Error(), nil)
+			for _, cleanup := range []bool{true, false} {
+				vis, err := ck.reopenVisibleMode(after, imgDir, cleanup)
+				if err != nil {
+					return rt.Fail(i, fmt.Sprintf("image taken after the acknowledged delete does not reopen (cleanup=%v): %v", cleanup, err), err.Error(), nil)
+				}
+				if !eqInts2(vis, want) {
+					return rt.Fail(i, fmt.Sprintf("delete acknowledged but a reopen of the directory (cleanup=%v) does not show the new tombstone set (tombstones must persist across reopen)", cleanup), vis, want)
+				}
 			}
-			if !eqInts2(vis, s.New) {
-				return rt.Fail(i, "delete acknowledged but a reopen of the directory does not show the new tombstone set (tombstones must persist across reopen)", vis, s.New)
+			if diverged {
+				return rt.Result{OK: true, Evals: ck.evals, Nontrivial: true, Sig: fmt.Sprintf("t%08x", h.Sum32()), Drift: keysOf(ck.drift)}
 			}
 			// crash images at every commit point, and torn appends between consecutive images
 			prev := before
 			for _, p := range order {
 				img := images[p]
+				if vis2, err := ck.reopenVisibleMode(img, imgDir, false); err != nil {
+					return rt.Fail(i, fmt.Sprintf("crash image at %s does not reopen at reader level (stale temp file kept): %v", p, err), err.Error(), nil)
+				} else if !eqInts2(vis2, old) && !eqInts2(vis2, s.New) {
+					return rt.Fail(i, fmt.Sprintf("crash image at %s reopened at reader level shows neither the old nor the new tombstone set", p), vis2, map[string]interface{}{"old": old, "new": s.New})
+				}
 				vis, err := ck.reopenVisible(img, imgDir)
 				if err != nil {
 					return rt.Fail(i, fmt.Sprintf("crash image at %s does not reopen: %v", p, err), err.Error(), nil)
@@ -788,10 +842,13 @@ func runTomb(tc *tcase, raw []byte, env *rt.Env) rt.Result {
 					if err := materialize(img, dir); err != nil {
 						return rt.Infra(err.Error())
 					}
-					r, err = openReader(dir)
+					if s.Keep {
+						stale++
+					}
+					r, err = openReaderMode(dir, !s.Keep)
 					if err != nil {
 						r = nil
-						return rt.Fail(i, fmt.Sprintf("reopen after crash at %s failed: %v", s.Crash, err), err.Error(), nil)
+						return rt.Fail(i, fmt.Sprintf("reopen after crash at %s (keep temp file=%v) failed: %v", s.Crash, s.Keep, err), err.Error(), nil)
 					}
 				}
 			}
@@ -810,7 +867,8 @@ func runTomb(tc *tcase, raw []byte, env *rt.Env) rt.Result {
 		ck.pending.Drift = keysOf(ck.drift)
 		return *ck.pending
 	}
-	return rt.Result{OK: true, Evals: ck.evals, Nontrivial: recorded >= 2 || crashes >= 1, Sig: fmt.Sprintf("t%08x", h.Sum32()), Drift: keysOf(ck.drift)}
+	return rt.Result{OK: true, Evals: ck.evals, Nontrivial: recorded >= 2 || crashes >= 1, Sig: fmt.Sprintf("t%08x", h.Sum32()), Drift: keysOf(ck.drift),
+		Extra: map[string]interface{}{"refused": refused, "stale": stale}}
 }
 
 func main() {
